@@ -381,6 +381,7 @@ theorem seg_travel (macf : MacF) (t : Topo) (now dst : Nat) (F : Frame) (g : Seg
       I[s]? = some (g.info (g.arrSid macf k)) →
       ∃ e' I' curIf', g.entry (g.es.length - 1) = some e' ∧ Arr g (g.es.length - 1) curIf' e' ∧
         I'[s]? = some (g.info (g.arrSid macf (g.es.length - 1))) ∧ (∀ j, j ≠ s → I'[j]? = I[j]?) ∧
+        I'.length = I.length ∧
         walk macf t dst now false (fuel + r) e.ia curIf (F.pkt I s (o + k)) steps =
           walk macf t dst now false fuel e'.ia curIf' (F.pkt I' s (o + (g.es.length - 1))) (steps + r) := by
   intro r
@@ -389,7 +390,7 @@ theorem seg_travel (macf : MacF) (t : Topo) (now dst : Nat) (F : Frame) (g : Seg
     intro k e I curIf steps fuel hk he harr hI
     have hkn : k = g.es.length - 1 := by omega
     subst hkn
-    exact ⟨e, I, curIf, he, harr, hI, fun _ _ => rfl, rfl⟩
+    exact ⟨e, I, curIf, he, harr, hI, fun _ _ => rfl, rfl, rfl⟩
   | succ r ih =>
     intro k e I curIf steps fuel hk he harr hI
     have hkl : k < g.es.length := by omega
@@ -418,10 +419,11 @@ theorem seg_travel (macf : MacF) (t : Topo) (now dst : Nat) (F : Frame) (g : Seg
       intro hc; rw [hpi]; exact hnz hc
     have hI1 : (setAt I s (g.info (g.arrSid macf (k + 1))))[s]? = some (g.info (g.arrSid macf (k + 1))) :=
       setAt_get_self _ _ _ _ hI
-    obtain ⟨e', I', curIf', h1, h2, h3, h4, h5⟩ :=
+    obtain ⟨e', I', curIf', h1, h2, h3, h4, hlen, h5⟩ :=
       ih (k + 1) e1 (setAt I s (g.info (g.arrSid macf (k + 1)))) l.peerIf (steps + 1) fuel (by omega) he1 harr1 hI1
-    refine ⟨e', I', curIf', h1, h2, h3, ?_, ?_⟩
+    refine ⟨e', I', curIf', h1, h2, h3, ?_, ?_, ?_⟩
     · intro j hj; rw [h4 j hj, setAt_get_ne _ _ _ _ (Ne.symm hj)]
+    · rw [hlen]; simp [setAt]
     · have hfuel : fuel + (r + 1) = (fuel + r) + 1 := by omega
       rw [hfuel]
       conv => lhs; unfold walk
@@ -444,8 +446,9 @@ theorem seg_deliver (macf : MacF) (t : Topo) (now : Nat) (F : Frame) (g : Seg) (
     (e : Entry) (I : List Info) (curIf steps fuel : Nat)
     (he : g.entry (g.es.length - 1) = some e) (harr : Arr g (g.es.length - 1) curIf e)
     (hI : I[s]? = some (g.info (g.arrSid macf (g.es.length - 1)))) :
-    ∃ q, walk macf t e.ia now false (fuel + 1) e.ia curIf (F.pkt I s (o + (g.es.length - 1))) steps =
-      some (.delivered e.ia, q, steps + 1) := by
+    walk macf t e.ia now false (fuel + 1) e.ia curIf (F.pkt I s (o + (g.es.length - 1))) steps =
+      some (.delivered e.ia, F.pkt (setAt I s (g.info (g.beta macf (g.es.length - 1)))) s (o + (g.es.length - 1)),
+            steps + 1) := by
   have hn := hocc.len2
   have hkl : g.es.length - 1 < g.es.length := by omega
   obtain ⟨a, ha, hkey, _⟩ := htr.asOk _ e he
@@ -457,8 +460,6 @@ theorem seg_deliver (macf : MacF) (t : Topo) (now : Nat) (F : Frame) (g : Seg) (
   have hroute := g_route_last macf (F.pkt I s (o + (g.es.length - 1))) s false e (g.beta macf _) (g.arrSid macf _) g.ts g.cons
     curIf now (t.lookup e.ia) rfl hseg rfl (by simp [Frame.pkt, Path.hopCount]; omega)
     (hocc.hops _ e hkl he) hI (harr.hsid macf hkl he) harr.hc hts hexp
-  refine ⟨({ F.pkt I s (o + (g.es.length - 1)) with
-      infos := setAt I s ⟨g.cons, false, g.beta macf (g.es.length - 1), g.ts⟩ } : Path), ?_⟩
   unfold walk
   simp only [ha]
   rw [hkey, hroute]
@@ -480,6 +481,7 @@ theorem seg_cross (macf : MacF) (t : Topo) (now dst : Nat) (F : Frame) (g g' : S
     (hI' : I[s + 1]? = some (g'.info (g'.beta macf 0))) :
     ∃ e1 I' curIf', g'.entry 1 = some e1 ∧ Arr g' 1 curIf' e1 ∧ I'[s + 1]? = some (g'.info (g'.arrSid macf 1)) ∧
       (∀ j, j ≠ s → j ≠ s + 1 → I'[j]? = I[j]?) ∧
+      I'[s]? = some (g.info (g.beta macf (g.es.length - 1))) ∧ I'.length = I.length ∧
       walk macf t dst now false (fuel + 1) e.ia curIf (F.pkt I s (o + (g.es.length - 1))) steps =
         walk macf t dst now false fuel e1.ia curIf' (F.pkt I' (s + 1) (o + g.es.length + 1)) (steps + 1) := by
   have hn := hocc.len2
@@ -520,9 +522,11 @@ theorem seg_cross (macf : MacF) (t : Topo) (now dst : Nat) (F : Frame) (g g' : S
   have hI1 : (setAt I s (g.info (g.beta macf (g.es.length - 1))))[s + 1]? = some (g'.info (g'.beta macf 0)) := by
     rw [setAt_get_ne _ _ _ _ (by omega)]; exact hI'
   refine ⟨e1, setAt (setAt I s (g.info (g.beta macf (g.es.length - 1)))) (s + 1) (g'.info (g'.arrSid macf 1)),
-    l.peerIf, he1, ⟨by omega, fun _ => ⟨hpi, fun hc => by rw [hpi]; exact hnz hc⟩⟩, setAt_get_self _ _ _ _ hI1, ?_, ?_⟩
+    l.peerIf, he1, ⟨by omega, fun _ => ⟨hpi, fun hc => by rw [hpi]; exact hnz hc⟩⟩, setAt_get_self _ _ _ _ hI1, ?_, ?_, ?_, ?_⟩
   · intro j hj hj'
     rw [setAt_get_ne _ _ _ _ (Ne.symm hj'), setAt_get_ne _ _ _ _ (Ne.symm hj)]
+  · rw [setAt_get_ne _ _ _ _ (by omega)]; exact setAt_get_self _ _ _ _ hI
+  · simp [setAt]
   · conv => lhs; unfold walk
     simp only [ha]
     rw [hkey, hroute]
